@@ -1,6 +1,7 @@
 package crlrepository
 
 import (
+	"bytes"
 	"crypto/x509"
 	"errors"
 	"fmt"
@@ -448,6 +449,9 @@ func verifyCRLSignature(result *crlreader.CRLReadResult, chains *core.Certificat
 	var signatureCert *core.CertificateChainEntry
 	crlVerified := false
 	for _, certCandidate := range certCandidates {
+		if isEntitledToSignCRL(certCandidate, chains) == false {
+			continue
+		}
 		strategies := result.HashAndVerifyStrategy
 		err := strategies.VerifyStrategy.VerifySignature(strategies.HashStrategy, certCandidate.Certificate.PublicKey, result.CalculatedSignature, result.Signature.Bytes)
 		if err == nil {
@@ -460,6 +464,27 @@ func verifyCRLSignature(result *crlreader.CRLReadResult, chains *core.Certificat
 		return nil, errors.New("can not verify CRL signature with given issuer certificates")
 	}
 	return signatureCert, nil
+}
+
+// isEntitledToSignCRL sorts out issuer candidates which matched by name or key identifier but must not sign a CRL:
+// the end-entity certificate of a presented chain, certificates which are explicitly no CA
+// and certificates whose key usage is present but does not contain cRLSign (RFC 5280 section 6.3.3 f)
+func isEntitledToSignCRL(candidate *core.CertificateChainEntry, chains *core.CertificateChains) bool {
+	certificate := candidate.Certificate
+	if certificate.KeyUsage != 0 && certificate.KeyUsage&x509.KeyUsageCRLSign == 0 {
+		return false
+	}
+	if certificate.BasicConstraintsValid && certificate.IsCA == false {
+		return false
+	}
+	if chains != nil {
+		for _, chain := range chains.CertificateChainList {
+			if len(chain.CertificateChainEntryList) > 1 && bytes.Equal(chain.CertificateChainEntryList[0].RawCertificate, candidate.RawCertificate) {
+				return false
+			}
+		}
+	}
+	return true
 }
 
 func (R *Repository) DeleteTempFilesIfExist() {
